@@ -128,7 +128,12 @@ def atom_str(a: Atom) -> str:
         return a.name
     if a.kind == "fn":
         return "%s(%s)" % (a.name, ", ".join(key_str(x) for x in a.args))
-    return "%s⟨%s⟩" % (a.name, ", ".join(key_str(x) for x in a.args))
+    def short(x):
+        t = key_str(x)
+        if isinstance(x, tuple) and x and x[0] in ("obj", "objof", "list", "maybe") and len(x) >= 2:
+            t = key_str(x[-1]) if not isinstance(x[-1], str) else x[-1]
+        return t if len(t) <= 60 else t[:57] + "…"
+    return "%s⟨%s⟩" % (a.name.split(".")[-1], ", ".join(short(x) for x in a.args))
 
 
 # --------------------------------------------------------------------------
